@@ -64,7 +64,7 @@ func (b *shortBody) Close() error { return nil }
 func (s *rServer) RoundTrip(req *http.Request) (*http.Response, error) {
 	s.reqs++
 	s.sim.Point(vs.SiteNet)
-	if req.URL.Host == "other.test" {
+	if req.URL.Host == "other.test" || req.URL.RawQuery == "rev=2" {
 		// a second origin: always up, one fixed Taskfile at the same path as the first origin's
 		h := http.Header{}
 		h.Set("Content-Type", "text/yaml")
@@ -159,7 +159,8 @@ type rProg struct {
 	Insecure bool
 	DirURL   int  // 0: the include names the file; k>0: it names a directory and the file is the k-th default name
 	Nested   bool // (https only) the remote Taskfile includes a plain-http Taskfile: refused without --insecure
-	Second   bool // a second remote include from another host, same path, fixed content
+	Second   bool // a second remote include, fixed content, same path: from another host, or (SecondQ) from the same host with a query string
+	SecondQ  bool
 	Steps    []rStep
 }
 
@@ -178,6 +179,7 @@ func genR(ch *vs.Choices, tier string) *rProg {
 	}
 	if p.Scheme == "https" && !p.Nested && !p.Optional && ch.Bool(1, 4) {
 		p.Second = true
+		p.SecondQ = p.DirURL == 0 && ch.Bool(1, 2)
 	}
 	n := 3 + ch.Draw(6)
 	if tier == "thorough" {
@@ -309,13 +311,17 @@ func runROne(t *testing.T, ch *vs.Choices, prop, tier string, render bool, p *rP
 	}
 	rootYAML := fmt.Sprintf("version: '3'\nsilent: true\nincludes:\n  r: %s\ntasks:\n  default:\n    cmds:\n      - task: r:hello\n", url)
 	if p.Second {
-		rootYAML = fmt.Sprintf("version: '3'\nsilent: true\nincludes:\n  r: %s\n  r2: https://other.test/tf.yml\ntasks:\n  default:\n    cmds:\n      - task: r:hello\n      - task: r2:hello\n", url)
+		second := "https://other.test/tf.yml"
+		if p.SecondQ {
+			second = "https://sim.test/tf.yml?rev=2" // same host and path: only the query string tells the two files apart
+		}
+		rootYAML = fmt.Sprintf("version: '3'\nsilent: true\nincludes:\n  r: %s\n  r2: "+second+"\ntasks:\n  default:\n    cmds:\n      - task: r:hello\n      - task: r2:hello\n", url)
 	}
 	if p.Optional {
 		// optional only excuses an include that cannot be located; it must not excuse a refused approval
 		rootYAML = fmt.Sprintf("version: '3'\nsilent: true\nincludes:\n  r:\n    taskfile: %s\n    optional: true\ntasks:\n  default:\n    cmds:\n      - task: r:hello\n  local:\n    cmds:\n      - echo \"R|local\"\n", url)
 	}
-	out.Shape = vs.HashString(rootYAML + strings.Join(hs, "\n") + fmt.Sprint(p.Insecure, p.DirURL, p.Nested, p.Second))
+	out.Shape = vs.HashString(rootYAML + strings.Join(hs, "\n") + fmt.Sprint(p.Insecure, p.DirURL, p.Nested, p.Second, p.SecondQ))
 	dir, err := newRunDir()
 	if err != nil {
 		out.HarnessError = err.Error()
@@ -425,7 +431,7 @@ func runROne(t *testing.T, ch *vs.Choices, prop, tier string, render bool, p *rP
 					if !(strings.Contains(txt, "remote Taskfile") || strings.Contains(txt, "has changed since")) {
 						return
 					}
-					second := strings.Contains(txt, "other.test")
+					second := strings.Contains(txt, "other.test") || strings.Contains(txt, "?rev=2")
 					if strings.Contains(txt, "[assuming yes]") {
 						if second {
 							assumedYes2++
